@@ -274,6 +274,10 @@ class FnSpec:
 
     def note_assumption(self, text): self.assumptions.add(text)
 
+    def contract_keys(self):
+        """names under which calls are given a meaning in this proof: contract keys and the call overrides of the spec"""
+        return list(CONTRACTS.keys()) + list(self.calls.keys())
+
     def on_field_write(self, ex, st, attr, ref):
         self.written_fields.add(FIELD_ALIAS.get(attr, attr))
         if self.field_write: self.field_write(ex, st, attr, ref)
